@@ -29,6 +29,8 @@ type ConnCase struct {
 	ServerCIDLen   int               `json:"server_cid_len,omitempty"`
 	KeyUpdateEvery uint64            `json:"key_update_every,omitempty"`
 	Datagrams      bool              `json:"datagrams,omitempty"`
+	SmallLimits    bool              `json:"small_limits,omitempty"` // both Configs: 6 / 3 streams, fixed 16 kB stream and 40 kB connection windows
+	StreamLimit    int               `json:"stream_limit,omitempty"` // both Configs: this many incoming streams of either type (0: leave alone)
 	ConnIdx        int               `json:"conn_idx"`
 }
 
@@ -60,6 +62,18 @@ func OptionsFor(cc *ConnCase) (Options, error) {
 	opt := Options{Schedule: cc.Schedule, RTT: time.Duration(cc.RTTms) * time.Millisecond, ServerCIDLen: cc.ServerCIDLen, CertIntermediates: cc.CertChain}
 	sconf := &quic.Config{EnableDatagrams: cc.Datagrams, MaxIdleTimeout: 60 * time.Second, HandshakeIdleTimeout: 20 * time.Second}
 	cconf := &quic.Config{EnableDatagrams: cc.Datagrams, MaxIdleTimeout: 60 * time.Second, HandshakeIdleTimeout: 20 * time.Second}
+	if cc.SmallLimits {
+		for _, c := range []*quic.Config{sconf, cconf} {
+			c.MaxIncomingStreams, c.MaxIncomingUniStreams = 6, 3
+			c.InitialStreamReceiveWindow, c.MaxStreamReceiveWindow = 16<<10, 16<<10
+			c.InitialConnectionReceiveWindow, c.MaxConnectionReceiveWindow = 40<<10, 40<<10
+		}
+	}
+	if cc.StreamLimit > 0 {
+		for _, c := range []*quic.Config{sconf, cconf} {
+			c.MaxIncomingStreams, c.MaxIncomingUniStreams = int64(cc.StreamLimit), int64(cc.StreamLimit)
+		}
+	}
 	if cc.V2 {
 		sconf.Versions = []quic.Version{quic.Version2}
 		cconf.Versions = []quic.Version{quic.Version2}
